@@ -233,6 +233,10 @@ def build(rng, *, block_size: int, sector_size: int, nblocks: int, tail_cut_sect
     blob = {}
     entries = []
     for g, d, fl in items:
+        if not d:
+            # an empty item: offset and length are both zero
+            entries.append(g + struct.pack("<III4x", 0, 0, fl))
+            continue
         entries.append(g + struct.pack("<III4x", off, len(d), fl))
         blob[off] = d
         off += len(d) + (item_gap if item_gap else 0)
